@@ -15,7 +15,7 @@ def check(repo, rep, tier):
                '(cross-checked as far as their readable tables go)')
     g, gp = rf.load_grammar(repo)
     rep.analysed_add('grammar', dict(rules=[r for r in g.order if not g.is_lexer_rule(r)], tokens=g.tokens()))
-    lc = rf.rule_raising_recognisers(em, rep, 'C10.G1', g)
-    rf.rule_end_of_input(em, rep, 'C10.G3', g, gp)
-    rf.rule_visitor_dispatch(em, rep, 'C10.G4')
-    rf.rule_cli_exit(em, rep, 'C10.G5', lc)
+    lc = rep.run(rf.rule_raising_recognisers, em, rep, 'C10.G1', g)
+    rep.run(rf.rule_end_of_input, em, rep, 'C10.G3', g, gp)
+    rep.run(rf.rule_visitor_dispatch, em, rep, 'C10.G4')
+    rep.run(rf.rule_cli_exit, em, rep, 'C10.G5', lc or [])
